@@ -142,10 +142,14 @@ func runVerify(k *kernel.K) {
 		before := headerKey(hdr)
 		err := n.vm.VerifyBlock(hdr)
 		synctest.Wait()
-		got := errClass(err)
+		got := errClass(err) // only for violation classes: for tampered seals/proofs it depends on schnorrkel's random nonces
+		verdict := "rejected"
+		if err == nil {
+			verdict = "accepted"
+		}
 		k.Event("verify", "#%d parent=#%d epoch=%d slot=S0+%d claim=%s idx=%d behaviour=%s (n=%d c=%d/%d secondary=%d) reference=%s -> %s",
 			hdr.Number, parent.number, epoch, d.c.slot-sc.S0, kindName[d.c.kind], d.c.idx, tamper, len(ep.auths), ep.c1, ep.c2, ep.sec,
-			map[bool]string{true: "valid", false: "invalid:" + codeOf(why)}[valid], got)
+			map[bool]string{true: "valid", false: "invalid:" + codeOf(why)}[valid], verdict)
 		if tamper != "honest" {
 			k.Fault("byzantine-" + tamper)
 		}
@@ -160,7 +164,7 @@ func runVerify(k *kernel.K) {
 		}
 		switch {
 		case unsure:
-			k.Probe("unasserted-" + tamper + "-" + got)
+			k.Probe("unasserted-" + tamper + "-" + verdict)
 		case tamper == "honest" && err != nil:
 			k.Violate("C24", "honest-claim-passes", fmt.Sprintf("rejected-honest/%s/sec=%d/%s", kindName[d.c.kind], ep.sec, got),
 				"a block authored through the node's own slot lottery (%s claim, authority %d of %d, epoch %d, c=%d/%d, secondary=%d, parent #%d) and sealed by buildBlockSeal was rejected: %s",
